@@ -5,6 +5,7 @@ import RdestModel.Lemmas.Trace
 import RdestModel.Lemmas.Bitfield
 import RdestModel.Props.C01
 import RdestModel.Lemmas.Adv
+import RdestModel.Swarm.Init
 set_option linter.unusedSimpArgs false
 set_option linter.unusedVariables false
 namespace Rdest.Props.C11
@@ -12,8 +13,6 @@ open Rdest Rdest.Wire Rdest.Gen Rdest.Swarm
 
 /-! ### T1: the bitfield sent after the handshake marks exactly the pieces owned at that moment -/
 
-/-- `Peer::handle_init`: the bitfield is `Bitfield::from_vec(statuses.map(|s| s == Have))`. -/
-def initBitfield (statuses : List Status) : Bytes := fromVec (statuses.map (fun st => decide (st = .have)))
 
 /-- Bit `i` of the bitfield (BEP3 bit order) is set exactly when piece `i` is owned when `Init` is handled; spare
     bits are zero. With C01 (owned ⇒ verified data stored) every advertised piece is verified and stored. -/
